@@ -88,9 +88,10 @@ fn key_of(c: u8, d: &[u8]) -> BigUint {
     (pf::from_le(d) % (n - 1u32)) + 1u32
 }
 
+/// `pad`: low nibble / high nibble select the surplus-byte fill of the r half / the s half (0 = zero padding)
 fn encode_halves(r: &BigUint, s: &BigUint, half_len: u8, pad: u8) -> Vec<u8> {
     let l = (half_len as usize).clamp(1, 70);
-    let enc = |x: &BigUint| -> Vec<u8> {
+    let enc = |x: &BigUint, pad: u8| -> Vec<u8> {
         let mut b = x.to_bytes_be();
         if b == [0] { b.clear(); }
         if b.len() > l {
@@ -98,12 +99,12 @@ fn encode_halves(r: &BigUint, s: &BigUint, half_len: u8, pad: u8) -> Vec<u8> {
             b = b[b.len() - l..].to_vec();
         }
         let mut v = vec![0u8; l - b.len()];
-        if pad != 0 && !v.is_empty() { v[0] = pad; }
+        if pad != 0 && !v.is_empty() { let i = (pad as usize >> 2) % v.len(); v[i] = pad; }
         v.extend(b);
         v
     };
-    let mut out = enc(r);
-    out.extend(enc(s));
+    let mut out = enc(r, pad & 0x0F);
+    out.extend(enc(s, pad >> 4));
     out
 }
 
@@ -147,7 +148,7 @@ fn check(case: &Case) -> Outcome {
                 4 => { // zero-extended halves
                     sig2 = encode_halves(&r, &s, 33 + (*val % 20), 0);
                 }
-                5 => { sig2 = encode_halves(&r, &s, 33 + (*val % 20), 1 + (*val % 200)); }
+                5 => { let pad = [0x01u8, 0x10, 0x11, 0x0F, 0xF0, 0x23][*val as usize % 6]; sig2 = encode_halves(&r, &s, 33 + (*val % 20), pad); }
                 6 => { pk2 = sch.curve.encode(&sch.public(&di)); } // compressed key
                 _ => { sig2.push(0); }
             }
@@ -267,7 +268,7 @@ impl Property for C08 {
         match kind {
             0 => (key_strategy(), hash_strategy(), extra).prop_map(move |(d, hv, extra)| Case::Sign { c, d, hv, extra, mutation: 0, pos: 0, val: 0 }).boxed(),
             1 => (key_strategy(), hash_strategy(), extra, 1u8..8, any::<u16>(), any::<u8>()).prop_map(move |(d, hv, extra, mutation, pos, val)| Case::Sign { c, d, hv, extra, mutation, pos, val }).boxed(),
-            2 => (key_strategy(), key_strategy(), boundary_int(c), prop::sample::select(vec![1u8, 2, 31, 32, 33, 64, 65]), prop::sample::select(vec![0u8, 0, 0, 1, 0x80])).prop_map(move |(d, k, s, half_len, pad)| Case::Forged { c, d, k, s, half_len, pad }).boxed(),
+            2 => (key_strategy(), key_strategy(), boundary_int(c), prop::sample::select(vec![1u8, 2, 31, 32, 33, 64, 65]), prop::sample::select(vec![0u8, 0, 0x01, 0x10, 0x11, 0x07, 0x70, 0x90, 0xF3])).prop_map(move |(d, k, s, half_len, pad)| Case::Forged { c, d, k, s, half_len, pad }).boxed(),
             3 => (key_strategy(), boundary_int(c), boundary_int(c), hash_strategy(), prop::sample::select(vec![32u8, 32, 33, 31, 40])).prop_map(move |(d, r, s, hv, half_len)| Case::Range { c, d, r, s, hv, half_len }).boxed(),
             4 => (
                 prop_oneof![2 => crate::props::c06::dec_strategy(2 + c as usize, 0), 1 => crate::props::c06::dec_strategy(2 + c as usize, 5), 1 => prop::collection::vec(any::<u8>(), 0..70)],
